@@ -134,6 +134,19 @@ CLAIMED = {
          'integers per history. Known findings F3, F14; F15 fixed. No axioms.',
     technique='Coq proof (invariants over prefixes of atomic-operation lists and over histories; sorting lemmas) + per-run crash-injection correspondence by vm_compute',
     ref='DESIGN.md section 5, C11'),
+  'C12': dict(
+    text='PARTIAL. A Gallina model of Dense, 1-D Conv (padding canonicalisation, CIRCULAR / REFLECT / CAUSAL pre-padding with jnp.pad, then a VALID convolution; stride, kernel dilation, groups), '
+         'Embed, 1-D avg / max / min pooling and the statistics of the normalisation layers (masked mean / variance, BatchNorm running averages). Proved for all inputs and hyper-parameters: '
+         'pre-pad + VALID convolution equals the documented direct sum over the extended signal; CAUSAL outputs do not depend on later inputs; SAME yields ceil(n/stride) positions; max pooling '
+         'returns a bounding element of the window; Embed is a lookup; masked positions cannot influence normalisation statistics, deviations from the mean sum to zero, running averages at momentum '
+         '0 and 1. Tied to /repo per run: every layer of the property (Dense, DenseGeneral, Einsum, Conv 1-D/2-D, ConvLocal, ConvTranspose, Embed, pooling, LayerNorm / RMSNorm / GroupNorm / '
+         'InstanceNorm / BatchNorm, Dropout) in Linen and NNX with explicit integer parameters is compared with an independent numpy direct-sum reference and Linen with NNX; the modelled '
+         'layers are also compared with the model in Coq.',
+    note='Trusted: Coq kernel, vm_compute, harness (numpy reference c12_ref.py), jaxcompat, float64 arithmetic of XLA on small integers. NOT proved / not modelled: DenseGeneral and Einsum axis '
+         'arithmetic, 2-D convolutions, ConvLocal, ConvTranspose, normalised outputs (square roots), Group / Instance / RMS norms, Dropout: oracle-only. Outputs at masked positions and windows '
+         'entirely in the padding (0/0) are unspecified and compared as the code gives them. dtype promotion, precision, axis_name not covered. No axioms.',
+    technique='Coq proof (index arithmetic of padding / strides, non-interference, rational statistics) + per-run correspondence by vm_compute + independent direct-sum reference on the real code',
+    ref='DESIGN.md section 5, C12'),
   'C14': dict(
     text='Theorems about hand-written Gallina models of the Linen filter algebra (one fuelled function mirroring union/subtract/intersect_filters, '
          'in_filter, is_filter_empty, group_collections) and of the NNX filter language with the first-match split loop: soundness and totality of the three '
